@@ -21,7 +21,7 @@ import (
 
 func concBatches(seed int64, tier core.Tier, prop string) []core.Batch {
 	var bs []core.Batch
-	workers := []int{1, 2, 3, 8, 32}
+	workers := []int{1, 2, 3, 8, 32, 0, -1} // 0 and negative: documented to mean the default (32)
 	inch := []int{1, 4, 1024}
 	n := 0
 	reps := tierPick(tier, 2, 30)
